@@ -59,7 +59,7 @@ def rename_text(text, mapping):
 
 def rename_plain(text, mapping):
     """token-wise renaming of identifiers in arbitrary text (messages, dumps)"""
-    return re.sub(r'(?<![A-Za-z_0-9])(?<![0-9a-fA-F]\.)[A-Za-z_][A-Za-z_0-9]*', lambda m: mapping.get(m.group(0), m.group(0)), text)
+    return re.sub(r'(?<![A-Za-z_0-9$#])(?<![0-9a-fA-F]\.)[A-Za-z_][A-Za-z_0-9$#]*', lambda m: mapping.get(m.group(0), m.group(0)), text)
 
 
 class XmlModel:
@@ -87,7 +87,7 @@ def user_identifiers(xm):
     for el, kind in xm.text_nodes():
         if kind == 'name':
             t = el.text.strip()
-            if re.fullmatch(r'[A-Za-z_][A-Za-z_0-9]*', t) and t not in T.KEYWORDS and t not in ids:
+            if re.fullmatch(r'[A-Za-z_][A-Za-z_0-9$#]*', t) and t not in T.KEYWORDS and t not in ids:
                 ids.append(t)
         else:
             for tok in T.tokens(el.text):
@@ -124,6 +124,12 @@ def rewrite_tokens(xml, which, rnd, soft_candidates=None):
                 nt = rename_text(t, mapping)
                 sites += sum(1 for tok in T.tokens(t) if tok[0] == 'id' and tok[1] in mapping)
                 el.text = nt
+        elif kind == 'name' and which == 'R2':
+            # a <name> is an identifier with optional white space around it (symbol() in the XML reader skips isspace())
+            pat = rnd.choice([None, None, ' %s', '%s ', '\n%s', '%s\n', '\n\t %s \n', '%s\r\n', '\r\n  %s', '\t%s\t'])
+            if pat is not None:
+                el.text = pat % t.strip()
+                sites += 1
         elif kind == 'block' and which == 'R2':
             if el.tag == 'formula':
                 continue      # a line break separates queries by definition
